@@ -259,6 +259,7 @@ type Exec struct {
 	clockTicks      int64
 	jsonRecs        []jsonRec
 	crcTabs         map[uint64]*Value
+	crcSym          map[string]*Term
 }
 
 func (x *Exec) replaying() bool { return x.pos < len(x.prefix) }
